@@ -11,7 +11,7 @@ pub static DEF: PropDef = PropDef {
     id: "C10",
     engine: "wfsim contains",
     level: "exploration",
-    rule: "one run = one needle (length 0..=40 over a tape-chosen alphabet: two letters, lower-case, all bytes) compiled once per anchor position 1..len-1 (the guarded hook substitutes the tape's / loop's position for production's random draw) plus through an index, a [*] + any and a function result, executed on 8-12 haystacks of length 0..=300 drawn from classes {absent, at offset 0, at the very end, straddling a 16/32/64-byte boundary, needle longer than haystack, near-miss in first / last / anchor byte, repeated prefixes, non-UTF-8} and compared with a naive windows search; every fourth run instead lets production's own draw through (observe mode, recorded on the tape); half of the worker processes run with WIREFILTER_USE_AVX2=0; some runs compile inside two scheduled tasks (first use of the process-wide latch); non-trivial = needle length >= 2 and at least one haystack containing and one not containing it; distinct = distinct choice tapes",
+    rule: "one run = one needle (length 0..=40 over a tape-chosen alphabet: two letters, lower-case, all bytes) compiled once per anchor position 1..len-1 (the guarded hook substitutes the tape's / loop's position for production's random draw) plus through an index, a [*] + any and a function result, executed on 8-12 haystacks of length 0..=300 (rarely up to 8 KiB, around 256/512/1024/2048/4096/8192) drawn from classes {absent, at offset 0, at the very end, straddling a 16/32/64-byte boundary, needle longer than haystack, near-miss in first / last / anchor byte, repeated prefixes, non-UTF-8} and compared with a naive windows search; every fourth run instead lets production's own draw through (observe mode, recorded on the tape); half of the worker processes run with WIREFILTER_USE_AVX2=0; some runs compile inside two scheduled tasks (first use of the process-wide latch); non-trivial = needle length >= 2 and at least one haystack containing and one not containing it; distinct = distinct choice tapes",
     runs_quick: 1_200_000,
     runs_thorough: 40_000_000,
     directed: 0,
@@ -85,12 +85,14 @@ fn gen_alpha_byte(alpha: usize) -> u8 {
 fn gen_haystack(alpha: usize, needle: &[u8], anchor_hint: usize) -> (Vec<u8>, &'static str) {
     let l = needle.len();
     let class = choose_w(&[3, 2, 2, 4, 1, 4, 2, 1, 3], "hay.class");
-    let base_len = match choose_w(&[1, 2, 3, 3, 2], "hay.lenclass") {
+    let base_len = match choose_w(&[2, 4, 6, 6, 4, 1], "hay.lenclass") {
         0 => choose(4, "hay.len"),
         1 => range(4, 17, "hay.len"),
         2 => range(15, 40, "hay.len"),
         3 => range(30, 100, "hay.len"),
-        _ => range(100, 300, "hay.len"),
+        4 => range(100, 300, "hay.len"),
+        // long values: thresholds a searcher may switch strategy at (page, buffer sizes) lie here
+        _ => [255usize, 511, 1023, 2047, 4095, 8191][choose(6, "hay.long_base")] + choose(4, "hay.long_off"),
     };
     let mut h: Vec<u8> = (0..base_len).map(|_| gen_alpha_byte(alpha)).collect();
     let place = |h: &mut Vec<u8>, at: usize, what: &[u8]| {
@@ -111,7 +113,11 @@ fn gen_haystack(alpha: usize, needle: &[u8], anchor_hint: usize) -> (Vec<u8>, &'
         }
         3 => {
             // straddle a 16 / 32 / 64-byte boundary
-            let boundary = [16usize, 32, 64, 48][choose(4, "hay.boundary")];
+            let boundary = if base_len > 300 {
+                [256usize, 512, 1024, 2048, 4096, 128][choose(6, "hay.boundary")].min(base_len)
+            } else {
+                [16usize, 32, 64, 48][choose(4, "hay.boundary")]
+            };
             let back = if l == 0 { 0 } else { 1 + choose(l.min(boundary), "hay.back") };
             place(&mut h, boundary - back.min(boundary), needle);
             kernel::count("c10.straddle");
@@ -171,7 +177,7 @@ fn gen_haystack(alpha: usize, needle: &[u8], anchor_hint: usize) -> (Vec<u8>, &'
             "in-the-middle"
         }
     };
-    h.truncate(300.max(l + 64));
+    h.truncate(if base_len > 300 { 8300 } else { 300.max(l + 64) });
     (h, name)
 }
 
